@@ -50,6 +50,18 @@ THEOREMS = [
     "PV.C07All.C07_one_scale",
     "PV.C07All.C07_scale_all",
     "PV.C07All.C07_scale_estimates",
+    "PV.C07All.C07_idxOf",
+    "PV.C07All.C07_idxOf_recovers",
+    "PV.C07All.C07_idxOf_window",
+    "PV.C07All.C07_idxOf_leaves_window_witness",
+    "PV.C07All.C07_selectFit",
+    "PV.C07All.C07_post_ok_iff",
+    "PV.C07All.C07_post_fit",
+    "PV.C07All.C07_fd_spacing",
+    "PV.C07All.C07_fd_equispaced",
+    "PV.C07All.C07_one_spec",
+    "PV.C07All.C07_mpe_spec",
+    "PV.C07All.exRun_ok",
 ]
 RULE = (
     "correspondence: fdd.SDOF_bellandMS vs Efdd.sdofBell with np.linalg.svd wrapped and its recorded output handed to the "
